@@ -69,7 +69,7 @@ def world_spec(rng):
     }
     payload = b'{"sub":"c20","n":1}'
     tokens = {}
-    for name, alg in (("hs", "HS256"), ("hs512", "HS512"), ("rsa", "RS256"), ("rsa", "PS384"), ("ec", "ES256"), ("ec384", "ES384"), ("ec521", "ES512"), ("k1", "ES256K"),
+    for name, alg in (("hs", "HS256"), ("hs", "HS384"), ("hs", "HS512"), ("hs512", "HS512"), ("hs512", "HS256"), ("rsa", "RS256"), ("rsa", "PS384"), ("rsa", "RS512"), ("ec", "ES256"), ("ec384", "ES384"), ("ec521", "ES512"), ("k1", "ES256K"),
                       ("ed", "EdDSA"), ("ed448", "EdDSA")):
         rk = RefKey.from_jwk(keys[name]["jwk"])
         t = rjws.compact({"alg": alg, "typ": "JWT"}, payload, rk)
@@ -100,7 +100,7 @@ class World:
             if d["jwk"]["kty"] != "oct" and (names is None or name + ".pub" in names):
                 self.k[name + ".pub"] = build_key(j, d["jwk"], d["rep"], False)
         self.reg = {
-            "jws-all": j.jws.JWSRegistry(algorithms=["HS256", "HS512", "RS256", "PS384", "ES256", "ES384", "ES512", "ES256K", "EdDSA"]),
+            "jws-all": j.jws.JWSRegistry(algorithms=["HS256", "HS384", "HS512", "RS256", "RS512", "PS384", "ES256", "ES384", "ES512", "ES256K", "EdDSA"]),
             "jws-hs": j.jws.JWSRegistry(algorithms=["HS256"]),
             "jwe-all": j.jwe.JWERegistry(algorithms=g.ALGS + g.ENCS + ["DEF"]),
             "jwe-nonstrict": j.jwe.JWERegistry(algorithms=g.RFC_ALGS + g.RFC_ENCS, strict_check_header=False, verify_all_recipients=False),
@@ -132,7 +132,8 @@ def build_key(j, jwk, rep, private):
 
 def op_pool(spec):
     ops = []
-    jws_keys = [("hs", "HS256"), ("hs512", "HS512"), ("rsa", "RS256"), ("rsa", "PS384"), ("ec", "ES256"), ("ec384", "ES384"), ("ec521", "ES512"), ("k1", "ES256K"),
+    # one key object is used with several algorithms of its family (per-key caches must not mix them up)
+    jws_keys = [("hs", "HS256"), ("hs", "HS384"), ("hs", "HS512"), ("hs512", "HS512"), ("hs512", "HS256"), ("rsa", "RS256"), ("rsa", "PS384"), ("rsa", "RS512"), ("ec", "ES256"), ("ec384", "ES384"), ("ec521", "ES512"), ("k1", "ES256K"),
                 ("ed", "EdDSA"), ("ed448", "EdDSA")]
     for name, alg in jws_keys:
         for form in ("compact", "flat", "general"):
